@@ -22,7 +22,7 @@ def members(path):
                 continue
             rel = str(sub.relative_to(path))
             data = sub.read_bytes()
-            if sub.name.lower() == "index.zip":
+            if sub.name.lower() == "index.zip" and sub.parent.name != "Data":   # below Data/ it is a data file of that name
                 with _open(io.BytesIO(data)) as z:
                     for n in z.namelist():
                         out.append((n, z.read(n)))
@@ -32,7 +32,8 @@ def members(path):
     with _open(path) as z:
         for n in z.namelist():
             data = z.read(n)
-            if n.lower().rsplit("/", 1)[-1] == "index.zip":   # the inner archive itself, not a data file called photo-index.zip
+            if n.lower().rsplit("/", 1)[-1] == "index.zip" and not (n.startswith("Data/") or "/Data/" in n):
+                # the inner archive itself, not a data file called photo-index.zip or Data/Index.zip
                 with _open(io.BytesIO(data)) as z2:
                     for n2 in z2.namelist():
                         out.append((n2, z2.read(n2)))
